@@ -178,12 +178,30 @@ def corpus():
     return out
 
 
+def gen_rotation(r, slots, extra, nticks, side="u"):
+    """constant interest, `slots` global slots, slots+extra interested peers, nticks choke cycles 30 s apart with
+    fresh uniform random() values (the fairness oracle hypothesis is that random() is fair)"""
+    p = slots + extra
+    ops = ["N 0"] * p + ["GM %s %d" % (side, slots), "AD 10000001"] + ["Q %s %d" % (side, c) for c in range(p)]
+    for _ in range(nticks):
+        ops.append("AD 30000000")
+        ops.append("TK : " + " ".join(str(r.randrange(1 << 31)) for _ in range(4 * p + 8)))
+    return "1 1 ; " + " ; ".join(ops)
+
+
 def gen(seed, tier):
     r = random.Random(seed)
     stats = {}
     cases = corpus()
     ncorp = len(cases)
     cases += HAND
+    nrot = 0
+    for slots in (1, 2, 3, 8):
+        for extra in ((1, 3) if tier == "quick" else (1, 2, 3, 4)):
+            cases.append(gen_rotation(r, slots, extra, 40 * (extra + 1) + 5))
+            nrot += 1
+        cases.append(gen_rotation(r, slots, 2, 12, side="d"))
+        nrot += 1
     n_struct, n_mal = (1500, 300) if tier == "quick" else (12000, 2500)
     for _ in range(n_struct):
         cases.append(gen_case(r, stats, max_conns=r.choice([4, 8, 12])))
@@ -194,7 +212,7 @@ def gen(seed, tier):
         ex = exhaustive(3) + [c for c in exhaustive(4) if r.random() < 0.25]
         nex = len(ex)
         cases += ex
-    dist = {"corpus": ncorp, "hand": len(HAND), "structured": n_struct, "malformed": n_mal, "exhaustive_small_scope": nex,
+    dist = {"corpus": ncorp, "hand": len(HAND), "rotation": nrot, "structured": n_struct, "malformed": n_mal, "exhaustive_small_scope": nex,
             "op_kinds": dict(sorted(stats.items()))}
     return cases, dist
 
